@@ -275,6 +275,9 @@ def check(col: Collector, tier: str):
     # column and tree names reach Branch()/TTree() and the descriptor as the same characters
     from sa.props._tr import check_escaper_ranges
     check_escaper_ranges(col, "C03.R10", repo)
+    import_obligations(col, "C03.R10", "c18", lambda o: o.rule == "C18.R1" and o.construct == "cpp_string_literal",
+                       "tree and column names are written through the same escaper: a name that is not reproduced character for character is "
+                       "another column name")
     # the backend's default method types (bool, float, int returns) must survive every reset of a re-used executor
     import_obligations(col, "C03.R10", "c13", lambda o: o.detail in ("int<float<double",) or o.detail.startswith("typed-by-kind-not-by-value") or
                        o.detail in ("int-typed-int", "float-typed-double"),
